@@ -498,12 +498,22 @@ struct WL {
                             if (!O->erase_inv.count(v)) O->erase_inv[v] = gsim::seq();
                             O->muts.push_back(Mutation{2, v, gsim::seq(), ~0ull});
                         }
-                        h->erase(it);
+                        auto r1 = h->erase(it);
                         {
                             gsim::Oracle o;
                             O->erase_returned.insert(v);
                         }
-                        if (op.c & 2) h->erase(it);  // erasing an erased element is a no-op
+                        if (op.c & 2) {
+                            // erasing an erased element is a no-op that still returns the
+                            // position after it (a sweep `it = erase(it)` relies on that)
+                            auto r2 = h->erase(it);
+                            bool e1 = !(r1 != h->end()), e2 = !(r2 != h->end());
+                            if (e1 != e2 || (!e1 && value_of(*r1) != value_of(*r2)))
+                                gsim::fail("erase_result", "erase() of an already erased element "
+                                           "returned %s, the first erase() of it had returned %s",
+                                           e2 ? "end()" : "an element", e1 ? "end()" : "another position");
+                            gsim::probe("rcu.double_erase_result_checked");
+                        }
                         for (int y = 0; y < op.b; y++) gsim::yield();
                         // the erased element stays valid while this handle lives
                         long v2 = value_of(*it);
